@@ -484,6 +484,13 @@ int run_phantom_micro(const Args& a) {
         std::size_t hi = std::min(present.size() - 1, lo + r.below(20));
         race.lk = present[lo];
         race.rk = present[hi];
+        if (r.chance(1, 4)) {
+            // left endpoint on an absent key: the interval starts in a gap (in the value+link top border: after its last
+            // value, so that the border contributes nothing but the link, and the endpoint itself can be inserted)
+            auto it = std::upper_bound(absent.begin(), absent.end(), lo > 0 ? present[lo - 1] : std::string());
+            if (toplink && r.chance(1, 2)) { it = std::lower_bound(absent.begin(), absent.end(), std::string("C7")); }
+            if (it != absent.end() && *it < race.rk && *it < present[lo]) { race.lk = *it; }
+        }
         const char* target = "inside";
         // right endpoint in the gap after present[hi]
         std::vector<std::string> gap;
@@ -500,7 +507,7 @@ int run_phantom_micro(const Args& a) {
             target = "gap-before-next-border";
         } else {
             std::vector<std::string> cand;
-            for (auto it = std::upper_bound(absent.begin(), absent.end(), race.lk); it != absent.end() && *it < race.rk; ++it) { cand.push_back(*it); }
+            for (auto it = std::lower_bound(absent.begin(), absent.end(), race.lk); it != absent.end() && *it < race.rk; ++it) { cand.push_back(*it); }
             if (cand.empty()) { continue; }
             race.ins.push_back(cand[r.below(cand.size())]);
             if (r.chance(1, 3)) {
